@@ -178,17 +178,30 @@ def run(check, an: Analysis):
             rest = path.events[index + 1:]
             reraised = path.kind == 'raise' and path.outcome[1].cls == cls
             designation = None
+            fresh_read = False
             for later in rest:
                 if later.kind == 'test':
                     found = _owner_compare(later, fn_enter)
                     if found:
                         designation = found
+                        node = later.node
+                        other = node.comparators[0] if ast.unparse(node.left) == \
+                            'self._owner' else node.left
+                        # `loop.activity` read *after* the wait: when the waiter is closed
+                        # by force, the running activity is the one that closes it
+                        fresh_read = not isinstance(other, ast.Name)
             released = any(is_call_to(e, '__release__') for e in rest)
             if not reraised:
                 ok, what = False, 'the signal does not leave __aenter__ unchanged'
             elif designation is None:
                 ok, what = False, ('no test whether the caller is the designated owner '
                                    'covers this exit (handler too narrow or test dropped)')
+            elif fresh_read and cls == 'ext:GeneratorExit':
+                ok, what = False, ('the designation test reads `loop.activity` after the '
+                                   'wait: a forced close is thrown from *another* '
+                                   'activity\'s turn, so the closed waiter is not '
+                                   '`loop.activity` and a designated owner would not pass '
+                                   'the lock on')
             elif designation == 'same' and not released:
                 ok, what = False, 'designated owner leaves without passing the lock on'
             elif designation == 'differs' and released:
